@@ -334,6 +334,19 @@ def direct_clauses(pid, bench, ta, a, tb, b):
                            % (c + ty, d + ty, tx, "both" if m1 is True and m2 is True else "neither" if m1 is False and m2 is False else "?"),
                            {"version": tx, "range_1": str(rc), "in_1": m1, "range_2": str(rd), "in_2": m2})
             elif pid == "C09":
+                # ... and a range of two constraints: the version against a bound of the pool on the other side
+                for tm, mv in [cl[0] for cl in (bench.pool.classes[:1] + bench.pool.classes[-1:])]:
+                    for c2 in ("<", ">=", "!="):
+                        try:
+                            r2c = R(constraints=[mk(c, y), mk(c2, mv)])
+                            VersionConstraint.validate(list(r2c.constraints))
+                            r2i = r2c.invert()
+                        except Exception:  # noqa: BLE001 — not a well-formed pair: not this clause's business
+                            continue
+                        n1, n2 = _mem(r2c, x), _mem(r2i, x)
+                        if isinstance(n1, bool) and isinstance(n2, bool) and n1 == n2:
+                            yield ("the inverse is not the complement (range of two constraints)",
+                                   {"version": tx, "range": str(r2c), "in_range": n1, "inverse": str(r2i), "in_inverse": n2})
                 try:
                     ri = rc.invert()
                 except Exception as e:  # noqa: BLE001
